@@ -14,8 +14,8 @@ def Mismatch (b : Blk) (cs : ChangeSet) : Prop :=
 
 /-- **apply_rejects_tampered** (1): a change set whose block hash, root or node count does not match the block is
 never applied — whatever `ComputeProperties` left as its root. -/
-theorem apply_rejects_mismatch (b : Blk) (cs : ChangeSet) (ro : Option Node) (hm : Mismatch b cs) :
-    (apply b cs ro).1 ≠ .applied := by
+theorem apply_rejects_mismatch (b : Blk) (cs : ChangeSet) (ro : Option Node) (base : List Node) (hm : Mismatch b cs) :
+    (apply b cs ro base).1 ≠ .applied := by
   unfold apply
   split
   · intro h; cases h
@@ -44,8 +44,8 @@ theorem apply_rejects_mismatch (b : Blk) (cs : ChangeSet) (ro : Option Node) (hm
 /-- **apply_rejects_tampered** (2): whenever the answer is not `applied` (an error, or the already-computed /
 unchanged-state short cuts) the block's client state is not set and its state status is what it was:
 the local state is untouched. -/
-theorem not_applied_untouched (b : Blk) (cs : ChangeSet) (ro : Option Node)
-    (h : (apply b cs ro).1 ≠ .applied) : (apply b cs ro).2 = (none, b.status) := by
+theorem not_applied_untouched (b : Blk) (cs : ChangeSet) (ro : Option Node) (base : List Node)
+    (h : (apply b cs ro base).1 ≠ .applied) : (apply b cs ro base).2 = (none, b.status) := by
   unfold apply at h ⊢
   split
   · rfl
@@ -66,8 +66,8 @@ theorem not_applied_untouched (b : Blk) (cs : ChangeSet) (ro : Option Node)
 
 /-- **applied ⇒ declared root**: an applied change set gives the block exactly the state root it declares,
 status `StateSynched`, and block hash, root and count all matched. -/
-theorem applied_root (b : Blk) (cs : ChangeSet) (ro : Option Node) (h : (apply b cs ro).1 = .applied) :
-    ∃ r, ro = some r ∧ (apply b cs ro).2 = (some { root := b.stateHash, overlay := cs.nodes }, 5) ∧
+theorem applied_root (b : Blk) (cs : ChangeSet) (ro : Option Node) (base : List Node) (h : (apply b cs ro base).1 = .applied) :
+    ∃ r, ro = some r ∧ (apply b cs ro base).2 = (some { root := b.stateHash, overlay := cs.nodes ++ base }, 5) ∧
       cs.block = b.hash ∧ cs.root = b.stateHash ∧ cs.nodes.length = b.count ∧ b.status < 4 := by
   by_cases hst : b.status ≥ 4
   · simp [apply, hst] at h
@@ -96,9 +96,9 @@ theorem applied_root (b : Blk) (cs : ChangeSet) (ro : Option Node) (h : (apply b
 /-- **apply_honest**: a change set that passes `ComputeProperties` and matches the block (what
 `NewBlockStateChange` of the executed block gives) is applied, and the block's state root is the declared =
 executed root. -/
-theorem apply_honest (b : Blk) (cs : ChangeSet) (r : Node) (hcp : computeProperties cs = some r)
+theorem apply_honest (b : Blk) (cs : ChangeSet) (r : Node) (base : List Node) (hcp : computeProperties cs = some r)
     (hst : b.status < 4) (hb : cs.block = b.hash) (hs : cs.root = b.stateHash) (hc : cs.nodes.length = b.count) :
-    apply b cs (some r) = (.applied, some { root := b.stateHash, overlay := cs.nodes }, 5) := by
+    apply b cs (some r) base = (.applied, some { root := b.stateHash, overlay := cs.nodes ++ base }, 5) := by
   have hroot := (computeProperties_some cs r hcp).1
   unfold apply
   have h1 : ¬ b.status ≥ 4 := by omega
@@ -163,6 +163,40 @@ theorem honest_complete (db : List Node) (st : BState) (E : List Node) (rank : H
     rw [← hkc]
     exact ih k hk (by rw [hkc]; omega)
 
+/-! ### which state the new state is built on -/
+
+/-- **base_state_choice**: a previous block whose state is COMPUTED — executed locally (`StateSuccessful`) or itself
+synced (`StateSynched`) — contributes all nodes merged into its in-memory state; a previous block that is unknown,
+not computed, or without client state contributes nothing (the persistent DB only). -/
+theorem base_state_choice (st : BState) :
+    baseOverlay (some 4) (some st) = st.overlay ∧ baseOverlay (some 5) (some st) = st.overlay ∧
+    (∀ s, s < 4 → baseOverlay (some s) (some st) = []) ∧ baseOverlay none (some st) = [] ∧
+    (∀ s, baseOverlay (some s) none = []) := by
+  refine ⟨by simp [baseOverlay], by simp [baseOverlay], ?_, rfl, ?_⟩
+  · intro s hs
+    have : ¬ s ≥ 4 := by omega
+    simp [baseOverlay, this]
+  · intro s; simp only [baseOverlay]; split <;> rfl
+
+/-- **honest ⇒ complete, previous block SYNCED**. Block N was synced (state `st1`: its change set merged in memory,
+nothing saved), block N+1's honest change set `cs2` is applied on top. If every node of the executed state of
+N+1 is among `cs2`'s nodes, among the nodes merged for N, or in the persistent DB, the whole state is readable. -/
+theorem honest_complete_over_synced_prev (db : List Node) (b : Blk) (cs2 : ChangeSet) (r : Node) (st1 : BState)
+    (E : List Node) (rank : Hash → Nat)
+    (hcp : computeProperties cs2 = some r) (hst : b.status < 4) (hb : cs2.block = b.hash)
+    (hs : cs2.root = b.stateHash) (hc : cs2.nodes.length = b.count)
+    (hclosed : ∀ n ∈ E, ∀ c ∈ n.children, ∃ m ∈ E, m.hash = c ∧ rank c < rank n.hash)
+    (hcover : ∀ n ∈ E, (∃ m ∈ cs2.nodes ++ st1.overlay, m.hash = n.hash) ∨ (∃ m ∈ db, m.hash = n.hash))
+    (hstamp : ∀ m ∈ cs2.nodes ++ st1.overlay, m.rehash = m.hash)
+    (hcontent : ∀ n ∈ E, ∀ m, (m ∈ db ∨ m ∈ cs2.nodes ++ st1.overlay) → m.hash = n.hash → m.children = n.children) :
+    ∃ st2, apply b cs2 (some r) (baseOverlay (some 5) (some st1)) = (.applied, some st2, 5) ∧
+      st2.root = b.stateHash ∧
+      ∀ (fuel : Nat) (n : Node), n ∈ E → rank n.hash < fuel → readable db st2 fuel n.hash = true := by
+  have hbase : baseOverlay (some 5) (some st1) = st1.overlay := (base_state_choice st1).2.1
+  refine ⟨{ root := b.stateHash, overlay := cs2.nodes ++ st1.overlay }, ?_, rfl, ?_⟩
+  · rw [hbase]; exact apply_honest b cs2 r st1.overlay hcp hst hb hs hc
+  · exact honest_complete db _ E rank hclosed hcover hstamp hcontent
+
 /-! ### `ComputeRoot` and Go's map order -/
 
 /-- For an accepted change set whose nodes form an acyclic graph (they do: a node's hash covers its children's
@@ -208,5 +242,26 @@ theorem substituted_changeset_accepted_incomplete :
 example : ∃ r, computeProperties exDrop = some r ∧ (apply exBlk exDrop (some r)).1 = .err .count :=
   ⟨⟨"R1", false, "R1", ["A'", "B"]⟩, by decide, by decide⟩
 example : Mismatch exBlk exDrop := Or.inr (Or.inr (by decide))
+
+/-! ### two synced blocks in a row -/
+
+/-- block 1 (round 7) changes leaf `A` to `A1`: `R1 → {A1, B}`; block 2 (round 8) changes `B` to `B2`: `R2 → {A1, B2}` -/
+def exBlk2 : Blk := { hash := "blk2", stateHash := "R2", count := 2, prev := some "R1", prevComputed := true, status := 0, round := 8 }
+def exCS1 : ChangeSet := { block := "blk", root := "R1", nodes := [⟨"R1", false, "R1", ["A1", "B"]⟩, ⟨"A1", true, "A1", []⟩] }
+def exCS2 : ChangeSet := { block := "blk2", root := "R2", nodes := [⟨"R2", false, "R2", ["A1", "B2"]⟩, ⟨"B2", true, "B2", []⟩] }
+def exSt1 : BState := { root := "R1", overlay := exCS1.nodes }
+
+/-- **the base-state choice is needed**: built on the synced previous block's in-memory state, block 2's state is
+complete; built on the persistent DB alone (what the code would do if "computed" excluded "synced") every check
+still passes, the block is `StateSynched` with the declared root — and the node `A1`, changed only by the unsaved
+previous block, is missing. -/
+theorem synced_prev_base_needed :
+    let r2 : Node := ⟨"R2", false, "R2", ["A1", "B2"]⟩
+    computeProperties exCS2 = some r2 ∧
+    (apply exBlk2 exCS2 (some r2) (baseOverlay (some 5) (some exSt1))).1 = .applied ∧
+    complete exDB ⟨"R2", exCS2.nodes ++ baseOverlay (some 5) (some exSt1)⟩ = true ∧
+    (apply exBlk2 exCS2 (some r2) []).1 = .applied ∧
+    complete exDB ⟨"R2", exCS2.nodes ++ []⟩ = false := by
+  refine ⟨by decide, by decide, by decide, by decide, by decide⟩
 
 end ZChain.StateChange
